@@ -117,13 +117,15 @@ func VerifC11Events() {
 	var compiled *rego.PreparedEvalQuery
 	var cerr error
 	compileFailed := false
+	var verr error
+	var report string
 	v.Scope("v")
 	panicked, msg := verifGuard(func() {
 		switch ep {
 		case 0:
-			Validate(prof, data, false, &ch)
+			report, verr = Validate(prof, data, false, &ch)
 		case 1:
-			ValidateWithConfiguration(prof, data, false, &ch, c.TestValidationConfiguration{}, c.DefaultReportConfiguration())
+			report, verr = ValidateWithConfiguration(prof, data, false, &ch, c.TestValidationConfiguration{}, c.DefaultReportConfiguration())
 		default:
 			compiled, cerr = CompileProfile(prof, false, &ch)
 			if cerr != nil {
@@ -131,9 +133,9 @@ func VerifC11Events() {
 				return
 			}
 			if ep == 2 {
-				ValidateCompiled(compiled, data, false, &ch)
+				report, verr = ValidateCompiled(compiled, data, false, &ch)
 			} else if ep == 3 {
-				ValidateCompiledWithConfiguration(compiled, data, false, &ch, c.TestValidationConfiguration{}, c.DefaultReportConfiguration())
+				report, verr = ValidateCompiledWithConfiguration(compiled, data, false, &ch, c.TestValidationConfiguration{}, c.DefaultReportConfiguration())
 			}
 		}
 	})
@@ -145,6 +147,11 @@ func VerifC11Events() {
 		if i < len(verifStageOrder) {
 			v.Assert("C11.prefix-of-stage-order", ev.EventType == verifStageOrder[i])
 		}
+	}
+	// 1b. a call that came back with a report went through every stage: each was started and finished
+	if ep < 4 && !panicked && !compileFailed && verr == nil && report != "" {
+		v.Reach("succeeded")
+		v.Assert("C11.complete-on-success", len(evs) == len(verifStageOrder))
 	}
 	// 2. close discipline
 	doubleClose := panicked && strings.Contains(msg, "close of closed channel")
@@ -363,12 +370,14 @@ func VerifC11EventsNative() {
 	data = string(v.ReplayBytes("prefix")) + data
 	ch := make(chan e.Event, 64)
 	compileFailed := false
+	var verr error
+	var report string
 	panicked, msg := verifGuard(func() {
 		switch ep {
 		case 0:
-			Validate(prof, data, false, &ch)
+			report, verr = Validate(prof, data, false, &ch)
 		case 1:
-			ValidateWithConfiguration(prof, data, false, &ch, c.TestValidationConfiguration{}, c.DefaultReportConfiguration())
+			report, verr = ValidateWithConfiguration(prof, data, false, &ch, c.TestValidationConfiguration{}, c.DefaultReportConfiguration())
 		default:
 			compiled, cerr := CompileProfile(prof, false, &ch)
 			if cerr != nil {
@@ -376,13 +385,16 @@ func VerifC11EventsNative() {
 				return
 			}
 			if ep == 2 {
-				ValidateCompiled(compiled, data, false, &ch)
+				report, verr = ValidateCompiled(compiled, data, false, &ch)
 			} else if ep == 3 {
-				ValidateCompiledWithConfiguration(compiled, data, false, &ch, c.TestValidationConfiguration{}, c.DefaultReportConfiguration())
+				report, verr = ValidateCompiledWithConfiguration(compiled, data, false, &ch, c.TestValidationConfiguration{}, c.DefaultReportConfiguration())
 			}
 		}
 	})
 	evs, closed := verifDrain(ch)
+	if ep < 4 && !panicked && !compileFailed && verr == nil && report != "" {
+		v.Assert("C11.complete-on-success", len(evs) == len(verifStageOrder))
+	}
 	v.Assert("C11.prefix-of-stage-order.length", len(evs) <= len(verifStageOrder))
 	for i, ev := range evs {
 		if i < len(verifStageOrder) {
